@@ -257,9 +257,12 @@ class Src:
         return s
 
 
-def make_wrapper(data, expected=None, allowed=None, reverse=False):
-    w = fi.InspectWrapper(Src(data), expected_format=expected,
-                          allowed_formats=allowed)
+def make_wrapper(data, expected=None, allowed=None, reverse=False, positional=False):
+    if positional:
+        w = fi.InspectWrapper(Src(data), expected, allowed)     # the documented parameter order
+    else:
+        w = fi.InspectWrapper(Src(data), expected_format=expected,
+                              allowed_formats=allowed)
     # the wrapper keeps its inspectors in a set hashed by id: give it a set
     # with a harness-chosen, reproducible iteration order instead
     ds = DetSet(w._inspectors)
@@ -294,12 +297,13 @@ class WrapperSystem:
     """An InspectWrapper with all (allowed) inspectors, read through read()."""
     kind = 'wrapper'
 
-    def __init__(self, expected=None, allowed=None, reverse=False):
+    def __init__(self, expected=None, allowed=None, reverse=False, positional=False):
         self.expected, self.allowed, self.reverse = expected, allowed, reverse
+        self.positional = positional
         self.name = 'wrapper'
 
     def new(self, data):
-        return make_wrapper(data, self.expected, self.allowed, self.reverse)
+        return make_wrapper(data, self.expected, self.allowed, self.reverse, self.positional)
 
     def feed(self, obj, data, p, q):
         got = obj.read(q - p)
